@@ -306,6 +306,15 @@ V("C03", "C03.R16", "c03-charptr-list-size-unset", "shroud/wrapp.py",
 V("C04", "C04.R12", "c04-struct-members-rendered-as-dummies", "shroud/wrapf.py",
   """                output.append(ast.gen_arg_as_fortran(bindc=True, local=True))""",
   """                output.append(ast.gen_arg_as_fortran())""", "fire", "member-kinds")
+V("C14", "C14.R5", "c14-numeric-options-stay-strings", "shroud/main.py",
+  """                try:
+                    value = int(value)
+                except ValueError:
+                    pass
+""", """                pass
+""", "fire", "int-options")
+V("C13", "C13.R7", "c13-use-list-without-break-hint", "shroud/wrapf.py",
+  """"use %s, only : %s" % (mname, ",\\t ".join(snames))""", """"use %s, only : %s" % (mname, ", ".join(snames))""", "fire", "sort_module_info:join")
 V("C05", "C05.R16", "c05-ctor-default-returns-nullptr", "shroud/wrapp.py",
   '                "return {PY_error_return};\\n"\n#                "goto fail;\\n"',
   '                "return {nullptr};\\n"\n#                "goto fail;\\n"', "fire", "wrap_function:return {nullptr}")
